@@ -220,7 +220,7 @@ def run(ctx):
                     any(pstr(strip_cast(lig.resolve(a_, mn.frame))) == lhs for a_ in mn.ev.get("args", [])):
                 ok = True
         ctx.ob("C09.R3c", inst, ok, lfn.loc, "the scan must keep the minimum slot version (assign only when current > slot)")
-        rets = [n for n in ig.ev_nodes() if n.id in live and n.ev["e"] == "ret" and n.frame.owner_id == 0]
+        rets = [n for n in ig.ev_nodes() if n.id in live and n.ev["e"] == "ret" and n.frame.id == 0]
         init_ok = False
         for n in ig.ev_nodes(lambda n: n.id in live and n.ev["e"] == "decl" and n.frame.owner_id == 0):
             if const_val(n.ev.get("init")) == UMAX and any(pstr(r.ev.get("v")) == n.ev["name"] for r in rets):
